@@ -134,6 +134,10 @@ where
         match &mut self.inner {
             InnerConnection::H2(conn) => {
                 *request.version_mut() = http::Version::HTTP_2;
+                // hyper's HTTP/2 client unwraps the `Connection` header value as visible ASCII
+                // while it strips connection-specific headers, and panics in the connection
+                // task when it is not. Those headers are not allowed in HTTP/2: strip them here.
+                strip_connection_headers(request.headers_mut());
                 Box::pin(conn.send_request(request))
             }
             InnerConnection::H1(conn) => {
@@ -157,6 +161,28 @@ where
         match &self.inner {
             InnerConnection::H2(_) => http::Version::HTTP_2,
             InnerConnection::H1(_) => http::Version::HTTP_11,
+        }
+    }
+}
+
+/// Remove the `Connection` header(s) and every header they nominate.
+fn strip_connection_headers(headers: &mut http::HeaderMap) {
+    let values: Vec<http::HeaderValue> = headers
+        .get_all(http::header::CONNECTION)
+        .iter()
+        .cloned()
+        .collect();
+
+    if values.is_empty() {
+        return;
+    }
+
+    headers.remove(http::header::CONNECTION);
+    for value in values {
+        if let Ok(names) = value.to_str() {
+            for name in names.split(',') {
+                headers.remove(name.trim());
+            }
         }
     }
 }
